@@ -37,6 +37,35 @@ def scenarios(rng, tier, runner):
         for k in range(meta["nsub"]):
             ls += ["dd.list %d" % k, "dd.vals %d" % k]
         out.append(Scenario("rt-%d" % i, ls, meta))
+    # delayed replications that occur many times (14 … 300) with operators inside the replicated block that narrow
+    # its elements (2 08 YYY on long character elements, 2 01 YYY below 128): the decoder's "message too short for
+    # this factor" guard must measure a lower bound (added after a seeded change made it count strings at their
+    # Table B width and refuse messages the library had just written)
+    B, D = P["cur"]
+    strs = [d for d in (1015, 1019, 1011) if d in B and B[d][3] == 5]
+    nums = [d for d in (12101, 10004, 7004, 11002) if d in B]
+    for i in range(24 if tier == "quick" else 300):
+        fac = rng.choice([14, 25, 40, 120, 300])
+        body = []
+        if strs and rng.random() < 0.8:
+            body += [208000 + rng.choice([1, 2, 3]), rng.choice(strs)] + ([rng.choice(strs)] if rng.random() < 0.3 else []) + [208000]
+        if rng.random() < 0.5:
+            body += [201000 + rng.choice([120, 124, 126]), rng.choice(nums), 201000]
+        if not body or rng.random() < 0.3:
+            body.append(rng.choice(nums))
+        fd = 31001 if fac <= 255 else 31002
+        t = [rng.choice(nums), 100000 + 1000 * len(body), fd] + body + [rng.choice(nums)]
+        nsub = rng.choice([1, 2])
+        ls = ["T.use cur", "tm.new 4 " + " ".join("%06d" % d for d in t)]
+        for k in range(nsub):
+            ls += ["ss.new", "ss.setfactors %d %d" % (k, fac), "ss.expand %d" % k,
+                   "ss.fill %d %d %d" % (k, rng.randrange(1, 2 ** 31), rng.choice([0, 1, 1]))]
+        for k in range(nsub):
+            ls += ["ss.list %d" % k, "ss.vals %d" % k]
+        ls += ["ds.invalid", "ds.encode 0", "ds.decodelast 1 0 0"]
+        for k in range(nsub):
+            ls += ["dd.list %d" % k, "dd.vals %d" % k]
+        out.append(Scenario("many-%d" % i, ls, {"tables": "cur", "ed": 4, "template": t, "nsub": nsub, "seeds": []}))
     return out
 
 def two_pass(scn, c_out):
